@@ -338,7 +338,7 @@ def structural(tier, res):
 ORACLES = [
     {'name': 'operation histories on the real code (loads of .rules / CSV / missing files, classifications, repeated and case-variant '
              'expressions) compared with a cold evaluation of the same request in a fresh interpreter', 'script': 'C07.py',
-     'bound': 'all sequences of length <= 3 (quick) / 4 (thorough) over 7 operations, 3 probe transactions'},
+     'bound': '11 directed histories (incl. rewrite-in-place and transforms-first loads) + all sequences of length <= 3 (quick, 1/7 of length 3) / 4 (thorough) over 12 operations, 4 probe transactions'},
 ]
 TRUSTED_BASE = [
     'pyvc symbolic executor and structural frame checker (pyvc/frames.py)', 'z3 5.1.0 / cvc5 1.0.3',
@@ -347,6 +347,6 @@ TRUSTED_BASE = [
 ]
 ASSUMPTIONS = ['A7 ast.parse deterministic', 'A8 no reflection/monkey patching in the verified functions (reflective constructs are refused by the calls clause of C03)',
                'the rules file on disk is not rewritten between a load and the classifications that follow it (a reload re-reads the file)']
-EXPLANATION = ('Cache representation invariants INV_E / INV_R / INV_C as pre/postconditions of the real parse_expression, _fn_regex and get_all_rules '
+EXPLANATION = ('Cache representation invariants INV_E / INV_R / INV_C as pre/postconditions of the real parse_expression, _fn_regex and get_all_rules, get_transforms equal to a cold load '
                '(symbolic execution, z3); frame clauses for every function on the classification path by the syntactic back end; '
                'bounded stand-in (labelled): operation histories versus cold evaluation in a fresh interpreter.')
